@@ -108,6 +108,8 @@ def _applicable(kind):
         return ["ldisc0", "ldisc1", "error"]
     if kind in ("L:reset", "L:connect", "L:first_connect"):
         return ["error"]
+    if kind == "charreset":
+        return ["error"]
     return []
 
 
@@ -291,6 +293,15 @@ def run_case(case):
                             holders[h] = p.connect()
                             on_handout(h, holders[h], "checkout")
                             held[h] = holders[h].dbapi_connection.id
+                            if arg and cfg.get("charreset", True):
+                                # what Engine-level execution options do (DefaultDialect._set_connection_characteristics): a
+                                # per-checkout characteristic whose reset runs at checkin and talks to the driver - "errors during reset"
+                                def _reset_char(dbc, _led=led):
+                                    f = _led.point("charreset", dbc)
+                                    if f is not None:
+                                        dbc.reset_failed = True
+                                        _led.raise_for(f, "charreset", dbc)
+                                holders[h]._connection_record.finalize_callback.append(_reset_char)
                             if arg:
                                 cur = holders[h].cursor()
                                 try:
